@@ -328,10 +328,10 @@ func main() {
 			lims[size-50] = true
 		}
 		if c.Thorough() {
-			// "a file-size limit reached at any byte offset": every offset for the small files, every 16th otherwise
+			// "a file-size limit reached at any byte offset": every offset for files of up to 300 triangles, every 4th otherwise
 			step := int64(1)
-			if size > 5000 {
-				step = 16
+			if size > 16000 {
+				step = 4
 			}
 			for l := int64(0); l < size; l += step {
 				lims[l] = true
